@@ -28,6 +28,7 @@ RULE = ("Constructor inputs as plain data x one global duration setting (readout
         "the same setting. Non-trivial = durations differ from the default (2,1,1,2) and, for repetition-code "
         "constructors, at least one QEC cycle; distinct = distinct canonical JSON of the case.")
 ASSUMPTIONS = [
+    "composite descriptions given to the simplified constructor keep at least one two-qubit gate: with every gate, rotation and refocusing pulse excluded its QEC round is empty and the constructor raises NoReferenceOperationException (a loud refusal of a description with nothing to do, not an overlap)",
     "times are the reported start_time / end_time of every operation in circuit.operations, read inside the same temporary_override_get_registry_at block the circuit was built in; durations never change after construction",
     "times are read exactly as a user would read them (no memo is cleared between construction / apply_modifiers() and the first read; the stale-memo defect that used to disturb this is repaired, fix fd00686)",
     "channel matching is the rule of the property (same qubit and same channel or one side ALL), evaluated on (id, channel name) pairs; a multi-channel operation matches if any of its identifiers does",
@@ -297,7 +298,13 @@ def strat_composite():
         n_ex = min(len(edges), draw(st.sampled_from([0, 1, 1, 2, 2, 3])))
         ex_edges = [edges[i] for i in sorted(draw(st.lists(st.integers(0, len(edges) - 1), min_size=n_ex, max_size=n_ex, unique=True)))]
         ex_qubits = [draw(st.sampled_from(sub[1::2]))] if draw(st.integers(0, 3)) == 0 else []
-        case = {"ctor": draw(st.sampled_from(["full", "full", "simplified"])), "desc": "composite",
+        ctor = draw(st.sampled_from(["full", "full", "simplified"]))
+        if ctor == "simplified":
+            # the simplified round needs at least one operation to attach its measurements to (it raises
+            # NoReferenceOperationException on a description whose exclusions leave nothing to do): keep one gate
+            ex_qubits = []
+            ex_edges = ex_edges[:max(0, len(edges) - 1)]
+        case = {"ctor": ctor, "desc": "composite",
                 "exclude_rotation": [draw(st.sampled_from(sub))] if draw(st.integers(0, 4)) == 0 else [], "layout": layout, "qubits": sub, "exclude_edges": ex_edges,
                 "exclude_qubits": ex_qubits, "only_required": draw(st.booleans()), "d": d,
                 "data": draw(st.lists(st.integers(0, 1), min_size=d, max_size=d)), "anc": None,
